@@ -123,7 +123,10 @@ def models_for(names, tier):
             res.append(item)
             continue
         (module, cfg, workers, timeout) = item
-        m = vlib.run_model(module, cfg, workers=workers, timeout=timeout)
+        if cfg.startswith("apalache:"):
+            m = vlib.run_apalache(module, cfg.split(":", 1)[1], timeout=timeout)
+        else:
+            m = vlib.run_model(module, cfg, workers=workers, timeout=timeout)
         log("[model] %s/%s: %d states, %d transitions, ok=%s, %.1fs" % (module, cfg, m["states"], m["transitions"], m["ok"], m["wall"]))
         res.append(m)
     return res
@@ -884,9 +887,12 @@ def plan_C08(tier, rng):
             c = [cfgs[i % len(cfgs)]]
             cs.write(ep, F["name"], 0, bits, c, tag="float-default", want_back=True)
             cs.write(ep, F["name"], 0, bits, c, wo=True, opts=wopts[i % len(wopts)], tag="float-options", want_back=True)
-            rc = radix_cfgs(16, c)
+            r = rng.choice([2, 4, 8, 16, 32, 3, 7, 12, 36])
+            rc = radix_cfgs(r, c)
+            if not rc:                                  # a build with power-of-two radices only
+                r = rng.choice([2, 4, 8, 16, 32])
+                rc = radix_cfgs(r, c)
             if rc:
-                r = rng.choice([2, 4, 8, 16, 32, 3, 7, 12, 36])
                 cs.write(ep, F["name"], radix_fmt(r), bits, rc, wo=True, opts=wf(exp=exp_char(r)), tag="float-radix", want_back=True)
     for ty in gens.INT_TYPES:
         for r in ([10, 2, 16, 36, 7] if quick else range(2, 37)):
@@ -1036,6 +1042,7 @@ def plan_C09(tier, rng):
     # arithmetic is the length of the bytes the reference writer lays out (MC_FloatWrite, invariant LenAgrees)
     models = [("MC_Bounds.tla", "MC_Bounds_quick.cfg" if quick else "MC_Bounds.cfg", 8, 3600),
               ("MC_Bounds.tla", "MC_Bounds_exh.cfg", 8, 3600),
+              ("AP_Bounds.tla", "apalache:Sufficient", 1, 1200),      # the same statement for ALL integer option values
               ("MC_FloatWrite.tla", "MC_FloatWrite_quick.cfg" if quick else "MC_FloatWrite.cfg", 8, 1800)]
     return cs, models, {"input_families": cs.tags, "configurations": cfgs, "phase2": phase2}
 
